@@ -16,6 +16,7 @@ import (
 	"sort"
 	"strconv"
 	"sync"
+	"sync/atomic"
 	"testing"
 
 	"pgregory.net/rapid"
@@ -279,9 +280,11 @@ func Check[C any](t *testing.T, s *Stats, name string, checks int, draw func(*ra
 	var mu sync.Mutex
 	var lastC C
 	var lastF *Failure
+	var done int64
 	ok := t.Run(name, func(t *testing.T) {
 		rapid.Check(t, func(rt *rapid.T) {
 			c := draw(rt)
+			atomic.AddInt64(&done, 1)
 			if f := guarded(run, c); f != nil {
 				mu.Lock()
 				lastC, lastF = c, f
@@ -290,6 +293,11 @@ func Check[C any](t *testing.T, s *Stats, name string, checks int, draw func(*ra
 			}
 		})
 	})
+	if n := atomic.LoadInt64(&done); ok && n < int64(checks) {
+		// rapid stops at the test deadline and still reports success: the remainder of the
+		// budget was not explored (inconclusive, not a pass of the full budget)
+		s.Extra("time_budget_hit:"+name, fmt.Sprintf("%d of %d cases run before the deadline", n, checks))
+	}
 	if !ok {
 		mu.Lock()
 		defer mu.Unlock()
